@@ -29,6 +29,7 @@ type LoopSpec struct {
 	GhostUpd   []*Clause
 	GhostInit  []*Clause
 	Uses       []*Clause
+	Exits      []*Clause // checked in the state after the loop (normal exit and breaks merged)
 	Unroll     int // bounded unrolling with an unwinding assertion instead of an invariant
 }
 
@@ -337,6 +338,8 @@ func loadContracts(files []string, pkgNames []string) (*Contracts, error) {
 						ls.Decreases = cl
 					case "use":
 						ls.Uses = append(ls.Uses, cl)
+					case "exit":
+						ls.Exits = append(ls.Exits, cl)
 					case "unroll":
 						ls.Unroll, _ = strconv.Atoi(strings.TrimSpace(m[3]))
 						cl.Src = "true"
@@ -395,6 +398,7 @@ func loadContracts(files []string, pkgNames []string) (*Contracts, error) {
 			all = append(all, l.GhostUpd...)
 			all = append(all, l.GhostInit...)
 			all = append(all, l.Uses...)
+			all = append(all, l.Exits...)
 			if l.Decreases != nil {
 				all = append(all, l.Decreases)
 			}
